@@ -3,6 +3,7 @@ package main
 import (
 	"bytes"
 	"encoding/json"
+	"errors"
 	"flag"
 	"fmt"
 	"math/rand"
@@ -205,6 +206,18 @@ func roundTrip(w *ndWriter, sid *int, doc *sbom.Document, fname string, indent i
 		}
 	}
 	ev["auto"] = auto
+	// derived fact: the copyright texts that have white space at either end, stripped (the SPDX serializer strips them)
+	crtrim := map[string]any{}
+	if doc != nil && doc.NodeList != nil {
+		for _, n := range doc.NodeList.Nodes {
+			if n != nil && strings.TrimSpace(n.Copyright) != n.Copyright {
+				crtrim[n.Id] = strings.TrimSpace(n.Copyright)
+			}
+		}
+	}
+	if len(crtrim) > 0 {
+		ev["crtrim"] = crtrim
+	}
 	// the representable classes are read back with auto-detection (as the properties say); any other
 	// pipeline states the format, so that C03 does not depend on which versions detection knows (C06)
 	rf := trFormats[fname]
@@ -229,6 +242,21 @@ func roundTrip(w *ndWriter, sid *int, doc *sbom.Document, fname string, indent i
 		return
 	}
 	ev["wire"] = decodeWire(fname, out)
+	// a destination that stops accepting bytes: the write must not report success (the output there is incomplete)
+	if *sid%5 == 0 {
+		swallowed := []any{}
+		for _, capacity := range []int{0, 1, len(out) / 2, len(out) - 1} {
+			lw := &limitedWriter{left: capacity}
+			var werr error
+			kk, _ := guarded(20*time.Second, func() {
+				werr = writer.New().WriteStreamWithOptions(doc, lw, &writer.Options{Format: trFormats[fname], RenderOptions: &native.RenderOptions{Indent: indent}})
+			})
+			if kk == "ok" && werr == nil {
+				swallowed = append(swallowed, capacity)
+			}
+		}
+		ev["swallowed"] = swallowed
+	}
 	d1, k, t := readDoc(out, rf)
 	ev["r1"] = outcome(k, t)
 	if k != "ok" {
@@ -247,6 +275,21 @@ func roundTrip(w *ndWriter, sid *int, doc *sbom.Document, fname string, indent i
 		ev["doc2"] = proj.Doc(d2)
 	}
 }
+
+// limitedWriter accepts a fixed number of bytes and then fails, like a full disk or a closed pipe.
+type limitedWriter struct{ left int }
+
+func (l *limitedWriter) Write(p []byte) (int, error) {
+	if len(p) <= l.left {
+		l.left -= len(p)
+		return len(p), nil
+	}
+	n := l.left
+	l.left = 0
+	return n, errors.New("verif: destination full")
+}
+
+func (l *limitedWriter) Close() error { return nil }
 
 // fileAPI repeats the write and the read through the path-taking entry points (WriteFile, ParseFile) and reports
 // whether they agree with the stream entry points: "same" | "write-differs" | "read-differs" | "<outcome kind>".
